@@ -553,6 +553,11 @@ class BOCSDesigner(vza.Designer):
     for p_config in problem_statement.search_space.parameters:
       if p_config.external_type != vz.ExternalType.BOOLEAN:
         raise ValueError('Only boolean search spaces are supported.')
+      if p_config.num_feasible_values != 2:
+        # The +-1 encoding produces both 'True' and 'False'.
+        raise ValueError(
+            f'Boolean parameter {p_config.name} must allow both values.'
+        )
 
     self._problem_statement = problem_statement
     self._metric_name = self._problem_statement.metric_information.item().name
